@@ -962,7 +962,7 @@ package tally
 //@   ensures @quiet quiet()
 
 //@ func keyForPrefixedStringMapsAsKey
-//@   property C05
+//@   property C05, C04
 //@   allocs
 //@   modifies elems(buf)
 //@   requires len(maps) == 1 || len(maps) == 2
@@ -1348,7 +1348,7 @@ package tally
 //@ pred sortedUpTo(a []string, n int) { forall p, q int :: {a[p], a[q]} 0 <= p && p < q && q < n ==> a[p] <= a[q] }
 
 //@ func insertionSort
-//@   property C05
+//@   property C05, C04
 //@   modifies elems(keys)
 //@   ensures @sorted sortedUpTo(keys, len(keys))
 //@   ensures @same_elements seteq(elemset(keys), old(elemset(keys)))
